@@ -227,3 +227,39 @@ M("C19", "method-name-slice-off-by-one", F, GH_NAME, "            command_name =
 M("C19", "method-name-first-word-only", F, GH_NAME, "            command_name = task.name.split(\"_\")[1].lower() if task else \"empty_task\"\n", "C19.R7")
 M("C19", "method-name-not-lowered", F, GH_NAME, "            command_name = task.name.replace(\"COMMAND_\", \"\") if task else \"empty_task\"\n", "C19.R7")
 M("C19", "method-name-prefix-without-underscore", F, "        on_handler = getattr(self, f\"on_{command_name}\", None)\n", "        on_handler = getattr(self, f\"on{command_name}\", None)\n", "C19.R7")
+
+# ---------------------------------------------------------------------------------------------- R8: a given override (also 0) is the value the client sleeps by
+SET_SLEEP = "        self.sleeptime: int = self.bconfig.settings[\"SETTING_SLEEPTIME\"] if sleeptime is None else sleeptime\n"
+SET_JITTER = "        self.jitter: int = self.bconfig.settings[\"SETTING_JITTER\"] if jitter is None else jitter\n"
+# the selection is decided by None-ness: other orientation, parameter rebound by an if statement, settings in a local, default with its own fallback
+T("C19", "twin-override-not-none-first", F, SET_JITTER, "        self.jitter: int = jitter if jitter is not None else self.bconfig.settings[\"SETTING_JITTER\"]\n")
+T("C19", "twin-override-parameter-rebound", F, SET_SLEEP,
+  "        if sleeptime is None:\n            sleeptime = self.bconfig.settings[\"SETTING_SLEEPTIME\"]\n        self.sleeptime: int = sleeptime\n")
+T("C19", "twin-override-default-first-then-given", F, SET_JITTER,
+  "        beacon_settings = self.bconfig.settings\n        self.jitter = beacon_settings[\"SETTING_JITTER\"]\n        if jitter is not None:\n            self.jitter = jitter\n")
+T("C19", "twin-override-default-with-own-fallback", F, SET_JITTER,
+  "        self.jitter: int = (self.bconfig.settings[\"SETTING_JITTER\"] or 0) if jitter is None else int(jitter)\n")
+T("C19", "twin-override-range-validated", F, SET_JITTER,
+  "        if jitter is not None and not 0 <= jitter <= 100:\n            raise ValueError(\"jitter must be a percentage\")\n" + SET_JITTER)
+# the selection is decided by a test that the given number 0 fails
+M("C19", "override-truthiness-conditional", F, SET_JITTER, "        self.jitter: int = jitter if jitter else self.bconfig.settings[\"SETTING_JITTER\"]\n", "C19.R8")
+M("C19", "override-truthiness-statement", F, SET_SLEEP,
+  "        self.sleeptime: int = self.bconfig.settings[\"SETTING_SLEEPTIME\"]\n        if sleeptime:\n            self.sleeptime = sleeptime\n", "C19.R8")
+M("C19", "override-positive-only", F, SET_JITTER,
+  "        use_override = jitter is not None and jitter > 0\n        self.jitter: int = jitter if use_override else self.bconfig.settings[\"SETTING_JITTER\"]\n", "C19.R8")
+M("C19", "override-parameter-rebound-by-truthiness", F, SET_SLEEP,
+  "        if not sleeptime:\n            sleeptime = self.bconfig.settings[\"SETTING_SLEEPTIME\"]\n        self.sleeptime: int = sleeptime\n", "C19.R8")
+M("C19", "override-ignored", F, SET_JITTER, "        self.jitter: int = self.bconfig.settings[\"SETTING_JITTER\"]\n", "C19.R8")
+T("C19", "twin-override-helper-extracted", F, "", "",
+  edits=[(F, "    def get_sleep_time(self) -> float:\n",
+          "    @staticmethod\n    def _given_or(override, default):\n        return default if override is None else override\n\n    def get_sleep_time(self) -> float:\n"),
+         (F, SET_SLEEP, "        self.sleeptime: int = self._given_or(sleeptime, self.bconfig.settings[\"SETTING_SLEEPTIME\"])\n"),
+         (F, SET_JITTER, "        self.jitter: int = self._given_or(jitter, self.bconfig.settings[\"SETTING_JITTER\"])\n")])
+T("C19", "twin-override-tuple-assignment", F, SET_SLEEP + SET_JITTER,
+  "        beacon_settings = self.bconfig.settings\n        self.sleeptime, self.jitter = (\n            beacon_settings[\"SETTING_SLEEPTIME\"] if sleeptime is None else sleeptime,\n"
+  "            beacon_settings[\"SETTING_JITTER\"] if None is jitter else jitter,\n        )\n")
+M("C19", "override-swapped-parameters", F, SET_JITTER, "        self.jitter: int = self.bconfig.settings[\"SETTING_JITTER\"] if jitter is None else sleeptime\n", "C19.R8")
+M("C19", "override-helper-tests-truthiness", F, "", "", "C19.R8",
+  edits=[(F, "    def get_sleep_time(self) -> float:\n",
+          "    @staticmethod\n    def _given_or(override, default):\n        return override if override else default\n\n    def get_sleep_time(self) -> float:\n"),
+         (F, SET_SLEEP, "        self.sleeptime: int = self._given_or(sleeptime, self.bconfig.settings[\"SETTING_SLEEPTIME\"])\n")])
